@@ -25,7 +25,7 @@ Print Assumptions c10_index_perm.
 
 (** every instantiation in the modem (header defaults, decoder, modulator, the four in m17-mod.cpp) is <45, 92, 368> *)
 Theorem c10_all_sites_are_m17 : Forall (fun s => s = (45, 92, 368)%N) (il_default :: il_sites).
-Proof. exact sites_lemma. Qed.
+Proof. exact il_sites_lemma. Qed.
 Print Assumptions c10_all_sites_are_m17.
 
 (** interleave puts element i at position π(i); the result has 368 elements (any element type, any content) *)
